@@ -17,6 +17,9 @@ def BiCGSTAB_reset(Op,rhs,x0,eps=1e-6,nmax=40):
     """ 
     # initial residual
     r = rhs - Op.matvec(x0)
+    if not tn.linalg.norm(r) > 0:
+        # the initial guess is already exact: nothing to iterate on (the choice of the shadow residual below would never end)
+        return x0, True, 0, tn.linalg.norm(r)
     
     # choose rop
     r0p = tn.rand(r.shape,dtype = x0.dtype)
